@@ -15,7 +15,7 @@ func main() {
 	prop := flag.String("prop", "", "property id (activates clauses tagged with it plus untagged support clauses)")
 	allTags := flag.Bool("alltags", false, "activate every clause regardless of tag")
 	out := flag.String("out", "/verif/out/dev", "directory for SMT files")
-	timeout := flag.Duration("timeout", 10*time.Second, "per solver timeout")
+	timeout := flag.Duration("timeout", 30*time.Second, "per solver timeout")
 	jobs := flag.Int("j", 16, "parallel solver jobs")
 	verbose := flag.Bool("v", false, "list every obligation")
 	split := flag.Bool("splitret", true, "check postconditions per return statement")
@@ -24,6 +24,8 @@ func main() {
 	listOnly := flag.Bool("list", false, "only list obligations")
 	known := flag.String("known", "/verif/known-findings.json", "known findings file")
 	replayDir := flag.String("replaydir", "/verif/replay", "where replay files go")
+	explain := flag.Bool("explain", true, "split conjunctive goals into one obligation per conjunct (debugging aid)")
+	only := flag.String("only", "", "only obligations whose name contains this string")
 	flag.Parse()
 	if env := os.Getenv("VERIF_TIER"); env != "" && *tier == "quick" {
 		*tier = env
@@ -47,6 +49,6 @@ func main() {
 	}
 	sort.Strings(keys)
 	run := &Run{W: w, Prop: *prop, Tier: *tier, Active: active, OutDir: *out, Timeout: *timeout, Jobs: *jobs, Verbose: *verbose,
-		Split: *split, Evidence: *evid, ListOnly: *listOnly, KnownFile: *known, ReplayDir: *replayDir, T0: t0, LoadSecs: tLoad.Seconds()}
+		Split: *split, Evidence: *evid, ListOnly: *listOnly, KnownFile: *known, ReplayDir: *replayDir, Explain: *explain, Only: *only, T0: t0, LoadSecs: tLoad.Seconds()}
 	os.Exit(run.Do(keys))
 }
